@@ -1,4 +1,5 @@
 import FxVerif.Model.C15
+import FxVerif.Proofs.C15Sdk
 /-! helper lemmas for the C15 property theorems (core Lean only) -/
 namespace FxVerif.Proofs.C15
 open FxVerif.Gen.C15 FxVerif.Model.C15
@@ -646,7 +647,7 @@ theorem step_inv (h1 : inactiveSettleShapeOk = true) (h2 : settleShapeOk = true)
       · exact addDeposit_inv hi h
     · exact hi
   | cancel pid who =>
-    simp only [step, Model.C15.ofExcept]
+    simp only [step, Model.C15.ofExcept, cancelRun_eq]
     split
     · rename_i s' h; exact cancel_inv hi h
     · exact hi
